@@ -38,8 +38,17 @@ def view_paths(rng, n):
         elif kind == 'phases':
             ops.append(('set_phases', dict(x=x, phs=sorted({'g', 'l', rng.choice(ds.ALLPH)}))))
         elif kind == 'link' and not multi:
-            ops += [('construct', dict(x=y, k='s', price=0, cf=0)), ('set_flow', dict(x=y, p='l', c=1, v=12)), ('set_T', dict(x=y, T=350)),
-                    ('unlink', dict(x=x)), ('link_with', dict(d=x, x=y, flow=True, phase=rng.random() < 0.5, TP=True))]
+            yph = rng.choice(['l', 'g'])
+            linkphase = rng.random() < 0.5
+            ops += [('construct', dict(x=y, k='s', price=0, cf=0)), ('set_flow', dict(x=y, p='l', c=1, v=12)), ('set_flow', dict(x=y, p='l', c=2, v=8)),
+                    ('set_phase', dict(x=y, p=yph)), ('set_T', dict(x=y, T=350)),
+                    ('unlink', dict(x=x)), ('link_with', dict(d=x, x=y, flow=True, phase=linkphase, TP=True))]
+            # the views of the two linked streams, read alternately (their phases may differ)
+            xph = yph if linkphase else 'l'
+            for _ in range(2):
+                ops += [('vget', dict(x=y, p=yph, c=c, view='vol', how='indexer')), ('vget', dict(x=x, p=xph, c=c, view='vol', how='indexer')),
+                        ('tget', dict(x=y, which='F_vol')), ('tget', dict(x=x, which='F_vol'))]
+            ph = xph
         elif kind == 'copy_like':
             ops += [('construct', dict(x=y, k='s', price=0, cf=0)), ('set_flow', dict(x=y, p='l', c=1, v=12)), ('set_phase', dict(x=y, p='g')),
                     ('set_T', dict(x=y, T=350)), ('copy_like', dict(d=x, x=y))]
@@ -50,6 +59,7 @@ def view_paths(rng, n):
         if multi and kind == 'copy_like':
             ph = 'g'
         ops += reads(ph)
+        ops += [('ubad', dict(x=x, units=u, view=v, how=h)) for u, v, h in (('kmol/hr', 'mass', 'view_get'), ('L/min', 'mass', 'get_property'), ('lb/hr', 'mol', 'view_get'))]
         ops += [('vset', dict(x=x, p=ph, c=c, view=views[0], v=12, how='indexer'))] + reads(ph)
         ops += [('uset', dict(x=x, p=ph, c=c, units=rng.choice(sorted(ds.World.UNITS)), v=16))] + reads(ph)
         ops += [('tset', dict(x=x, which=rng.choice(['F_mol', 'F_mass', 'F_vol']), q=[1, 2]))] + reads(ph)
